@@ -18,4 +18,8 @@ type Rand struct{}
 type Template struct{}
 type URL struct{}
 type Time struct{}
+type PS *S
+type LS []S
+type AR [2]T
+type CH chan T
 type A = T
